@@ -256,7 +256,7 @@ pub fn run(ctx: &mut Ctx) {
         ctx.note(note);
     }
     ctx.layer("random");
-    let n = t.pick(6_000u32, 100_000u32);
+    let n = t.pick(6_000u32, 300_000u32);
     let pool = std::sync::Arc::new(dsets);
     {
         let pool = pool.clone();
